@@ -72,6 +72,9 @@ theorem handler_constants_agree :
 
 /-! ### one exchange -/
 
+/-- the classification handed to C13's chain (`update_state`, suppression) keeps the bytes of the typed response -/
+theorem coarse_keeps_bytes (x : UdsResp.Resp) : (coarse x).pdu = UdsResp.encodeResp x := coarse_pdu x
+
 /-- what the ECU sends (before suppression) is the ISO answer of C13 with the typed handler plugged in; when the
     request parses it is the image of the typed answer -/
 theorem answer_of_reply (m : Model) (o : Orc) (st st' : SrvState) (b : Bytes) (x : Server.Resp) (hr : Ready m st)
